@@ -82,6 +82,10 @@ def unresolved_names(py, fn):
                 if x is not c:
                     nested.add(id(x))
     mod = fn._mod
+    # decorators are evaluated in the enclosing (class) scope: `@volume.setter` names the property defined just above
+    for d in fn.decorator_list:
+        for x in ast.walk(d):
+            nested.add(id(x))
     for n in ast.walk(fn):
         if id(n) in nested:
             continue
